@@ -44,7 +44,11 @@ def p2p_cmd(typ, r, rid=None, n=None):
     n = n or r.randrange(21, 44)
     d = bytearray(r.getrandbits(8) for _ in range(n))
     d[0:3] = b"P2P"
-    d[4] = r.randrange(0, 255) if rid is None else rid
+    # offset 4 carries the id / packet-kind octet; the values the handler itself compares against (0x0A ping, 0x0B redirect, 0x0C ack)
+    # and the counter boundaries are as likely as anything else
+    d[4] = r.choice([0x0A, 0x0B, 0x0C, 0x00, 0x01, 0x50, 0xFE, r.randrange(0, 255), r.randrange(0, 255)]) if rid is None else rid
+    if r.random() < 0.7:
+        d[5:9] = b"\x00\x00\x00\x14"  # constant in real traffic (part of the ping / ack prefixes)
     d[20] = typ
     return bytes(d)
 
@@ -142,7 +146,7 @@ class C18(Check):
                  "app_sets_out": k.random() < 0.5, "snmp_patches": k.random() < 0.3}
         rates = {}
         if arm == "faults" and f.random() > 0.1:
-            for x in ("dup", "reorder", "drop", "truncate", "garbage", "peer_reset", "peer_rebind", "snmp_fail", "handler_restart"):
+            for x in ("dup", "reorder", "drop", "truncate", "garbage", "peer_reset", "peer_rebind", "snmp_fail", "handler_restart", "callback_raises"):
                 if f.random() < 0.5:
                     rates[x] = f.random() * 0.3
         n = k.choice([1, 2, 3, 5, 8, 13, 21, 34, 55, 89, 150])
@@ -191,6 +195,8 @@ class C18(Check):
                 if f.random() < rates.get("snmp_fail", 0):
                     op["snmp_fail"] = True
                     op["f"] = op["f"] + ["snmp_fail"]
+                if dst == "RDAC" and f.random() < rates.get("callback_raises", 0):
+                    op["callback_raises"] = True  # counted as fired only if the callback is actually invoked
                 if f.random() < rates.get("drop", 0):
                     dropped += 1
                     continue
@@ -317,8 +323,17 @@ class C18(Check):
         p2p = P2PDatagramProtocol(st, p2p_port=P2P_PORT, rdac_port=RDAC_PORT)
         p2p.connection_made(SimDatagramTransport("P2P", lambda o, d, a: out.append((o, d, a))))
         done = []
-        rdac = RDACDatagramProtocol(st, callback=lambda u: done.append(u))
+        cbfail = {"on": False}
+
+        def completed(u):
+            done.append(u)
+            if cbfail["on"]:
+                res.fault("callback_raises")
+                raise RuntimeError("simulated failure inside the application's completion callback")
+
+        rdac = RDACDatagramProtocol(st, callback=completed)
         rdac.connection_made(SimDatagramTransport("RDAC", lambda o, d, a: out.append((o, d, a))))
+        reported = {}  # ip -> completion reports since the RDAC handler was (re)created
         registered = set()  # model: addresses that completed registration
         step = {}  # model: ip -> step
         completions = {}
@@ -338,9 +353,10 @@ class C18(Check):
             if op["kind"] == "handler_restart":
                 # the handler object is discarded and re-created on the same storage (volatile state lost; the storage survives)
                 if op["dst"] == "RDAC":
-                    rdac = RDACDatagramProtocol(st, callback=lambda u: done.append(u))
+                    rdac = RDACDatagramProtocol(st, callback=completed)
                     rdac.connection_made(SimDatagramTransport("RDAC", lambda o, d, a: out.append((o, d, a))))
                     step = {}
+                    reported = {}
                 else:
                     p2p = P2PDatagramProtocol(st, p2p_port=P2P_PORT, rdac_port=RDAC_PORT)
                     p2p.connection_made(SimDatagramTransport("P2P", lambda o, d, a: out.append((o, d, a))))
@@ -422,10 +438,17 @@ class C18(Check):
                 before = dict(rdac.step)
                 s0 = step.get(ip, 0)
                 nd = len(done)
+                cbfail["on"] = bool(op.get("callback_raises"))
                 try:
                     rdac.datagram_received(d, A)
                 except Exception as e:
                     raised = e
+                cbfail["on"] = False
+                if len(done) > nd:
+                    reported[ip] = reported.get(ip, 0) + (len(done) - nd)
+                    if reported[ip] > 1:
+                        V("C18.rdac-completion", "reported-twice", f"completion of {ip}'s identification run reported {reported[ip]} times (step {s0}, "
+                          f"datagram {d.hex()[:16]}, callback raised: {bool(op.get('callback_raises'))})")
                 sent = [(dd, tuple(a) if a else a) for _, dd, a in out]
                 s1 = rdac.step.get(ip, 0)
                 log.add(op["t"], "RDAC", "deliver", (d.hex()[:80], list(A), s0, s1, len(sent), type(raised).__name__))
